@@ -263,14 +263,12 @@ fn parse_mul(iter: &mut Iter<'_>) -> Expr {
     loop {
         match iter.peek().cloned().unwrap() {
             Token::Slash
+            | Token::Asterisk
             | Token::Plus
             | Token::Dash
             | Token::RPar
             | Token::Newline
             | Token::Eof => break,
-            Token::Asterisk => {
-                iter.next();
-            }
             _ => terms.push(parse_pow(iter)),
         }
     }
@@ -281,31 +279,48 @@ fn parse_mul(iter: &mut Iter<'_>) -> Expr {
     }
 }
 
+// `*` and `/` have the same precedence and group from the left, like in
+// the query language: `12 m / 2 * 3` is 18 m. Only juxtaposition binds
+// tighter than `/`.
 fn parse_div(iter: &mut Iter<'_>) -> Expr {
     let mut left = parse_mul(iter);
-    while let Token::Slash = *iter.peek().unwrap() {
-        iter.next();
-        let right = parse_mul(iter);
-        left = Expr::new_frac(left, right);
+    loop {
+        match *iter.peek().unwrap() {
+            Token::Slash => {
+                iter.next();
+                let right = parse_mul(iter);
+                left = Expr::new_frac(left, right);
+            }
+            Token::Asterisk => {
+                iter.next();
+                let right = parse_mul(iter);
+                left = Expr::new_mul(vec![left, right]);
+            }
+            _ => break,
+        }
     }
     left
 }
 
+// `+` and `-` group from the left: `10 m - 2 m - 3 m` is 5 m.
 fn parse_add(iter: &mut Iter<'_>) -> Expr {
-    let left = parse_div(iter);
-    match *iter.peek().unwrap() {
-        Token::Plus => {
-            iter.next();
-            let right = parse_add(iter);
-            Expr::new_add(left, right)
+    let mut left = parse_div(iter);
+    loop {
+        match *iter.peek().unwrap() {
+            Token::Plus => {
+                iter.next();
+                let right = parse_div(iter);
+                left = Expr::new_add(left, right);
+            }
+            Token::Dash => {
+                iter.next();
+                let right = parse_div(iter);
+                left = Expr::new_sub(left, right);
+            }
+            _ => break,
         }
-        Token::Dash => {
-            iter.next();
-            let right = parse_add(iter);
-            Expr::new_sub(left, right)
-        }
-        _ => left,
     }
+    left
 }
 
 pub fn parse_expr(iter: &mut Iter<'_>) -> Expr {
